@@ -286,9 +286,10 @@ impl Group for EnfGroup {
     }
     fn budget(&self, tier: Tier) -> usize {
         match (self.free, tier) {
-            (false, Tier::Quick) => 220,
+            // round 8: quick budgets raised (the whole quick check of C01/C02/C03 stays well under a minute)
+            (false, Tier::Quick) => 600,
             (false, _) => 4000,
-            (true, Tier::Quick) => 160,
+            (true, Tier::Quick) => 400,
             (true, _) => 3000,
         }
     }
